@@ -721,6 +721,35 @@ fn repo_sets(report: &mut Report) -> Vec<Set> {
     out
 }
 
+/// Unicode case mapping: EVERY code point of the domain of the model's `upperCharU` / `lowerCharU`
+/// (Model/PipelineBuiltins.lean: ASCII, Latin-1, General Punctuation, Currency Symbols, CJK Symbols
+/// .. Katakana, CJK Unified Ideographs, Specials, U+1F300..U+1FAFF) through `upper` and `lower`, 32 code
+/// points per text — the trusted std table of the model against the real `str::to_uppercase` /
+/// `str::to_lowercase`
+fn case_sets() -> Vec<Set> {
+    let ranges: [(u32, u32); 7] = [(0x00, 0xFF), (0x2000, 0x206F), (0x20A0, 0x20CF), (0x3000, 0x30FF), (0x4E00, 0x9FFF), (0xFFF0, 0xFFFF), (0x1F300, 0x1FAFF)];
+    let mut runs = Vec::new();
+    for (lo, hi) in ranges {
+        let cps: Vec<char> = (lo..=hi).filter_map(char::from_u32).collect();
+        for chunk in cps.chunks(32) {
+            let text: String = chunk.iter().collect();
+            runs.push(Run { ctx: vec![("s".to_string(), format!("s:{}", hex(text.as_bytes())))], global: vec![], kind: "case".into() });
+        }
+    }
+    // 40 runs per set keeps a batch small
+    runs.chunks(40)
+        .map(|c| Set {
+            stream: "case".into(),
+            templates: t(&[("case.txt", "{{ s | upper }}|{{ s | lower }}|{% filter lower %}{{ s | upper }}{% endfilter %}")]),
+            delims: D::default(),
+            suffixes: default_suffixes(),
+            prefixes: vec![],
+            entries: vec![e("case.txt", None)],
+            runs: c.to_vec(),
+        })
+        .collect()
+}
+
 /// whitespace-control variants of existing sets (default delimiters): `-` markers on tag starts and
 /// ends, ASCII / Unicode whitespace and line breaks around tags, comments with and without
 /// markers, raw blocks with every marker combination — what the whitespace filter and the raw /
@@ -1497,6 +1526,7 @@ fn parent_main() {
     let wsmarks = wsmark_sets(&mut rng, &sets[..n_base], env.budget(5000, 80000));
     sets.extend(malformed);
     sets.extend(wsmarks);
+    sets.extend(case_sets());
     for s in &sets {
         report.count(&format!("sets.{}", s.stream.split('.').take(2).collect::<Vec<_>>().join(".")));
     }
@@ -1645,6 +1675,10 @@ fn parent_main() {
             if !comparable(&mo) {
                 report.count(&format!("unmodelled.{}", mo.split(' ').nth(1).unwrap_or(&mo)));
                 report.count("compare.skipped_unmodelled");
+                // diagnostic: CPIPE_SHOW_UNMODELLED=1 prints the case (which inputs the model leaves out)
+                if std::env::var("CPIPE_SHOW_UNMODELLED").is_ok() {
+                    eprintln!("unmodelled {mo}: templates {:?} entry {:?} ctx {:?} real {o}", set.templates, set.entries.get(*ei), set.runs.get(*ri).map(|r| &r.ctx));
+                }
                 continue;
             }
             report.model_comparisons += 1;
